@@ -27,6 +27,12 @@ def run(sc, tier, seed):
     val2 = V.validate_traces(sc, "Topics", "TopicsTraceMC.tla", "TopicsConcTrace.cfg", meta2["trace_files"])
     R.states += val2["states"]
     R.handle_validation(val2)
+    # B3: moments that need a gate: backlog at handler update/removal; first collects on a missing topic
+    out3, meta3 = V.run_driver(sc, "c09race", tier, seed)
+    R.add_meta(meta3)
+    val3 = V.validate_traces(sc, "Topics", "TopicsTraceMC.tla", "TopicsTrace.cfg", meta3["trace_files"])
+    R.states += val3["states"]
+    R.handle_validation(val3)
     return R.finish("model_checking", ASSUME)
 
 
